@@ -34,16 +34,22 @@ CLAIM = dict(
     text="Lean theorems (any field, any finite face/cell index sets, abstract divergence D, arbitrary pinned cell): "
     "flux_reduced_equiv (full block system <=> Schur-complement system + flux formula, W diagonal invertible), "
     "pressure_equiv (under 1^T D = 0, zero-mean source, zero last rhs entry: reduced system <=> pinned pure-pressure system "
-    "with p_k = 0, lambda = 0 - the side conditions the code relies on), full_iff_pinned; dispatch theorems decided over the "
+    "with p_k = 0, lambda = 0 - the side conditions the code relies on), full_iff_pinned; BRIDGE to the executable model the driver "
+    "runs (every matrix tabulated from an entry formula over Q): model_full_is_abstract / model_reduced_is_abstract / "
+    "model_pinned_rows identify assembleFull, eliminateFlux, eliminateMultiplier with the abstract operators on Fin nf, Fin nc, and "
+    "model_linearSolve_sound proves that for each formulation the vector the model returns solves the assembled full system (inner "
+    "solve correctness is an explicit hypothesis = the back-end contract); 1^T D = 0 for the finite-volume divergence of any tensor "
+    "grid is imported from C06 (div_column_sum_zero), giving model_linearSolve_sound_fv; dispatch theorems decided over the "
     "acceptance matrix re-tabulated from the running code on every run (every documented formulation constructs and completes a "
     "linear_solve with the direct back-end, 'pressure' with all three back-ends, no accepted spelling falls through the "
     "branches); the hand-written CSC row/column removal is modelled array-operation by array-operation (np.arange/where/unique/"
-    "delete, index shift, indptr loop, unique, assert); csc_surgery_dense_partial proves, for arbitrary data, that its output "
-    "represents the matrix with rows/columns {k, last} dropped whenever the sparsity pattern passes the decidable certificate "
-    "surgeryCheck, and cached_pattern_reuse proves that the data-only refresh of later calls is the surgery of the new matrix; the "
-    "certificate (and the structural hypothesis patternOk of the unproved general statement) is evaluated by the model on the "
-    "pattern of every one of the 186 C07-range shapes in the thorough tier, where the model's arrays are also compared exactly "
-    "with the implementation's "
+    "delete, index shift, indptr loop, unique, assert) and csc_surgery_dense / csc_surgery_toDense prove IN GENERAL (every "
+    "well-formed pattern = decidable patternOk, arbitrary data) that it succeeds, removes two columns and represents the matrix with "
+    "rows/columns {k, last} dropped (proof per numpy step: rm_indices characterisation, the indptr loop leaves the number of kept "
+    "positions, np.unique merges exactly the two emptied columns, np.delete restricted to a column, row index shift); "
+    "cached_pattern_reuse proves that the data-only refresh of later calls is the surgery of the new matrix; patternOk is evaluated "
+    "by the model on the pattern of every one of the 186 C07-range shapes in the thorough tier, where the model's arrays are also "
+    "compared exactly with the implementation's "
     "(position tags as data). Public tie: every usable formulation x back-end solves "
     "random systems (positive face weights over three decades, zero-mean source) with an exact-arithmetic residual against the "
     "original full system within the stated tolerance, agrees pairwise and with the model's exact rational solution, and keeps "
